@@ -154,3 +154,52 @@ mut("c08-static-iter-ends-early", "C08",
     ("src/static_lut.rs",
      "            let ret = self.lut;\n            self.ok = next_inplace(N, self.lut.table.as_mut());\n            Some(ret)",
      "            let ret = self.lut;\n            self.ok = next_inplace(N, self.lut.table.as_mut());\n            if !self.ok && N > 4 {\n                return None;\n            }\n            Some(ret)"))
+
+# ---------------------------------------------------------------- C06
+mut("c06-helper-last-word-decides", "C06",
+    "input_property_helper overwrites instead of accumulating in the cross-word path for n > 8 (last word pair decides)",
+    ("src/decomposition.rs",
+     "                let c1 = table[i + stride];\n                ret &= !op(c0, c1) & mask == 0;",
+     "                let c1 = table[i + stride];\n                if num_vars > 8 {\n                    ret = !op(c0, c1) & mask == 0;\n                } else {\n                    ret &= !op(c0, c1) & mask == 0;\n                }"))
+mut("c06-helper-inword-first-word-only-large", "C06",
+    "in-word path of the helper stops after 32 words",
+    ("src/decomposition.rs",
+     "        for t in table {\n            let c1 = ((*t & m1) >> shift) | (*t & m1);",
+     "        for t in table.iter().take(32) {\n            let c1 = ((*t & m1) >> shift) | (*t & m1);"))
+mut("c06-nor-uses-c0", "C06",
+    "input_nor tests the wrong cofactor (c0) for tables of 9 variables or more",
+    ("src/decomposition.rs",
+     "    input_property_helper(num_vars, table, ind, |_, c1| !c1)",
+     "    input_property_helper(num_vars, table, ind, |c0, c1| if num_vars >= 9 { !c0 } else { !c1 })"))
+mut("c06-neg-unate-swapped-hi", "C06",
+    "is_neg_unate evaluates the positive predicate for variables stored across words (n >= 9)",
+    ("src/decomposition.rs",
+     "    input_property_helper(num_vars, table, ind, |c0, c1| !c1 | c0)",
+     "    input_property_helper(num_vars, table, ind, |c0, c1| if ind >= 6 && num_vars >= 9 { !c0 | c1 } else { !c1 | c0 })"))
+mut("c06-xor-ignores-top-bit", "C06",
+    "input_xor ignores the most significant bit of every word (a near miss in that bit is classified Xor)",
+    ("src/decomposition.rs",
+     "    input_property_helper(num_vars, table, ind, |c0, c1| c0 ^ c1)",
+     "    input_property_helper(num_vars, table, ind, |c0, c1| (c0 ^ c1) | (1u64 << 63))"))
+
+# ---------------------------------------------------------------- C07
+mut("c07-large-levels-from-7", "C07",
+    "table_complexity skips level 6 (the first multi-word level) for functions of more than 8 variables",
+    ("src/bdd.rs",
+     "    for level in 6..num_vars {",
+     "    for level in (if num_vars > 8 { 7 } else { 6 })..num_vars {"))
+mut("c07-large-no-dedup", "C07",
+    "large_level_complexity forgets dedup for levels >= 8 (shared sub-tables counted several times)",
+    ("src/bdd.rs",
+     "    // Sort-uniquify\n    luts.sort();\n    luts.dedup();\n    luts.len()\n}\n\npub fn table_complexity",
+     "    // Sort-uniquify\n    luts.sort();\n    if level < 8 {\n        luts.dedup();\n    }\n    luts.len()\n}\n\npub fn table_complexity"))
+mut("c07-large-normalise-half", "C07",
+    "large_level_complexity complements only the first half of the words of a sub-table for levels >= 8",
+    ("src/bdd.rs",
+     "        if c[0] & 1 != 0 {\n            for t in &mut c {",
+     "        if c[0] & 1 != 0 {\n            let lim = if level >= 8 { nb / 2 } else { nb };\n            for t in c.iter_mut().take(lim) {"))
+mut("c07-small-level-keeps-independent-large", "C07",
+    "level_complexity keeps sub-tables independent of the level variable when the concatenated table has more than 8 words",
+    ("src/bdd.rs",
+     "        if l == h {\n            // Independent from this variable\n            return false;\n        }\n        if l == (!h & mid_mask)",
+     "        if l == h {\n            // Independent from this variable\n            return table.len() > 8 && level == 3;\n        }\n        if l == (!h & mid_mask)"))
